@@ -12,7 +12,7 @@ var bsInvalid = []int64{0, -1, 3, 6, 12, 4097, 5000, -4096, 6144, 4095}
 
 func stdOps() []Op {
 	return []Op{{K: "A"}, {K: "A"}, {K: "V"}, {K: "F", I: 0}, {K: "A"}, {K: "C"}, {K: "S"}, {K: "B", I: 0}, {K: "B", I: 1},
-		{K: "W", I: 0, V: 255}, {K: "F", I: 0}, {K: "F", I: 0}, {K: "R"}, {K: "A"}}
+		{K: "W", I: 0, V: 255}, {K: "P", I: 1, P: 0, V: 254}, {K: "F", I: 0}, {K: "F", I: 0}, {K: "R"}, {K: "A"}}
 }
 
 func everyFor(count int64, nops int) int {
@@ -51,7 +51,7 @@ func genCtor(fl *hx.Flags, emit func(Case)) {
 				if bs >= 4096 && (sz > ss+4096 || bs > 4096) && !fit {
 					continue // the very large storages once
 				}
-				emit(Case{Kind: "seq", Bs: bs, Size: sz, Fit: fit, Backend: "mem", Ops: stdOps(), Every: everyFor(sz/ss*8*bs, 14), Note: "ctor"})
+				emit(Case{Kind: "seq", Bs: bs, Size: sz, Fit: fit, Backend: "mem", Ops: stdOps(), Every: everyFor(sz/ss*8*bs, 15), Note: "ctor"})
 			}
 		}
 	}
@@ -259,7 +259,13 @@ func (g *rgen) ops(n int) []Op {
 				v = 255
 			}
 			ops = append(ops, Op{K: "W", I: i, V: v})
-		case x < 90:
+		case x < 87:
+			pos := int64(g.r.Intn(int(g.bs)))
+			if g.r.Chance(1, 8) {
+				pos = prng.Pick(g.r, []int64{-1, g.bs, g.bs + 5})
+			}
+			ops = append(ops, Op{K: "P", I: g.freeIdx(), P: pos, V: g.r.Range(1, 255)})
+		case x < 91:
 			ops = append(ops, Op{K: "B", I: g.freeIdx()})
 		case x < 94:
 			ops = append(ops, Op{K: "R"})
